@@ -313,7 +313,7 @@ theorem symbolsNum_eq {t : SymTab} {symB strB : Bytes} (h : Wf t symB strB) :
 
 
 theorem attrsOf_eq (t : SymTab) (r : Spec.SymRec) : t.attrsOf (rawOf r) = attrsOfRec r := by
-  unfold attrsOf attrsOfRec rawOf
+  unfold attrsOf attrsOfT attrsOfRec rawOf
   simp only [st_bind_gen32, st_bind_gen64, st_type_gen32, st_type_gen64, ite_self]
 
 theorem getString_wf {t : SymTab} {symB strB : Bytes} (h : Wf t symB strB) (idx : BitVec 32) :
@@ -338,7 +338,8 @@ theorem getSymbol_decoded {t : SymTab} {symB strB : Bytes} (h : Wf t symB strB) 
   have hlt := t.sym.size.isLt
   have hi := i.isLt
   have hcnt : countOf t.cfg.cls symB ≤ symB.length := Nat.div_le_self _ _
-  unfold getSymbol guardNum
+  rw [SymTie.getSymbol_unfold]
+  unfold guardNum
   simp only [SymTie.get_name_sel]
   by_cases hn : (secData t.sym).isNone = true
   · have he := h.sym.isNone hn
@@ -827,7 +828,8 @@ theorem symPtrValue_eq {t : SymTab} {symB strB : Bytes} (h : Wf t symB strB) (i 
   have hlt := t.sym.size.isLt
   have hi := i.isLt
   have hcnt : countOf t.cfg.cls symB ≤ symB.length := Nat.div_le_self _ _
-  unfold symPtrValue guardNum
+  rw [SymTie.symPtrValue_unfold]
+  unfold guardNum
   by_cases hn : (secData t.sym).isNone = true
   · have he := h.sym.isNone hn
     have h0 : countOf t.cfg.cls symB = 0 := by subst he; simp [countOf]
@@ -1057,10 +1059,10 @@ theorem gnuLoop_sound {t : SymTab} {symB strB : Bytes} (h : Wf t symB strB) (hv 
       SymAt t.cfg symB strB name a' := by
   intro fuel
   induction fuel with
-  | zero => intro ci ch sn a a' e; rw [gnuLoop] at e; cases e
+  | zero => intro ci ch sn a a' e; rw [gnuLoop, gnuLoopT] at e; cases e
   | succ k ih =>
     intro ci ch sn a a' e
-    rw [gnuLoop] at e
+    rw [gnuLoop, gnuLoopT] at e
     sym_tie at e
     obtain ⟨r, er, e⟩ := bind_ok' e
     try simp only at e
@@ -1084,7 +1086,7 @@ theorem gnuLoop_sound {t : SymTab} {symB strB : Bytes} (h : Wf t symB strB) (hv 
 theorem gnuLookup_sound {t : SymTab} {symB strB : Bytes} (h : Wf t symB strB) (hv : ValidNames t.cfg symB strB)
     (hs : SecBuf) (name : Bytes) (a a' : Attrs) (e : t.gnuLookup hs name a = .ok (true, a')) :
     SymAt t.cfg symB strB name a' := by
-  unfold gnuLookup at e
+  unfold gnuLookup gnuLookupT at e
   sym_tie at e
   obtain ⟨nbuckets, _, e⟩ := bind_ok' e
   obtain ⟨symoffset, _, e⟩ := bind_ok' e
@@ -1109,6 +1111,7 @@ theorem hashPhase_sound {t : SymTab} {symB strB : Bytes} (h : Wf t symB strB) (h
     (name : Bytes) (a a' : Attrs) (e : t.hashPhase name a = .ok (true, a')) :
     SymAt t.cfg symB strB name a' := by
   unfold hashPhase at e
+  rw [SymTie.gnuLookupT_dispatch] at e
   split at e
   · simp [pure, Except.pure] at e
   · rename_i hs _
@@ -1148,7 +1151,8 @@ theorem linearGo_spec {t : SymTab} {symB strB : Bytes} (h : Wf t symB strB) (hv 
         (if (n == name) = true then pure (true, attrsOfRec (recAt t.cfg symB i))
          else t.linearGo name k (BitVec.ofNat 64 i + 1) (attrsOfRec (recAt t.cfg symB i))) := by
       rw [linearGo, getSymbol_decoded h, hiN]
-      simp only [hin, if_true, bind, Except.bind, hn, Option.getD_some, Bool.true_and]
+      simp only [SymTie.byname_hit, SymTie.byname_i_incr, hin, if_true, bind, Except.bind, hn, Option.getD_some,
+        Bool.true_and]
     rw [hstep]
     by_cases hm : n = name
     · subst hm
@@ -1431,7 +1435,7 @@ theorem gnuLoop_total {t : SymTab} {symB strB hashB : Bytes} (h : Wf t symB strB
   | zero => intro ci ch sn a h1 _ h3; omega
   | succ k ih =>
     intro ci ch sn a h1 h2 h3
-    rw [gnuLoop]
+    rw [gnuLoop, gnuLoopT]
     sym_tie
     generalize (if t.c32 = true then gnu32_hash_match ch hash else gnu64_hash_match ch hash) = hm
     have hget : ∃ r, (if hm = true then t.getSymbol (if t.c32 = true then gnu32_sym_index ci symoffset
@@ -1491,7 +1495,7 @@ theorem gnuLookup_total {t : SymTab} {symB strB hashB : Bytes} (h : Wf t symB st
   have hso := hw32_lt t.cfg.enc hashB 4
   have hmul : hw32 t.cfg.enc hashB 8 * bloomW t.cfg.cls ≥ hw32 t.cfg.enc hashB 8 := by
     rcases hW with e | e <;> rw [e] <;> omega
-  unfold gnuLookup
+  unfold gnuLookup gnuLookupT
   sym_tie
   simp only [rd32_at hr _ _ 0 (by omega), rd32_at hr _ _ 4 (by omega), rd32_at hr _ _ 8 (by omega),
     rd32_at hr _ _ 12 (by omega), bind, Except.bind]
@@ -1649,7 +1653,7 @@ inductive HashOk (t : SymTab) : Prop
 theorem hashPhase_total {t : SymTab} {symB strB : Bytes} (h : Wf t symB strB) (hk : HashOk t) (name : Bytes)
     (a : Attrs) : ∃ r1, t.hashPhase name a = .ok r1 := by
   unfold hashPhase
-  simp only [sym_byname_is_sysv, sym_byname_is_gnu]
+  simp only [sym_byname_is_sysv, sym_byname_is_gnu, SymTie.gnuLookupT_dispatch]
   cases hk with
   | none e => rw [e]; exact ⟨_, rfl⟩
   | sysv hs hashB e hr hty hw =>
